@@ -155,6 +155,7 @@ class Check:
                                         "events": meta["events"], "trace_states": states, "label": label or tla})
         self.cov["traces_validated_against_impl"] += meta["scenarios"]
         self.cov["evaluations"] += meta["scenarios"]
+        self.reject_total = getattr(self, 'reject_total', 0) + len(rejects)
         return rejects, accepts
 
     def model_check(self, specdir, tla, cfg, workers=8, timeout=3000, extra=(), expect_violation=False):
